@@ -14,6 +14,21 @@ THEOREMS = [
     "Wild.C32.local_not_exported",
     "Wild.C32.version_index_spec",
     "Wild.C32.exact_global_first_wins",
+    "Wild.C32.find_match_spec_partial",
+    "Wild.C32.find_match_spec_partial_syn",
+    "Wild.C32.GnuAgree_syntactic",
+    "Wild.C32.starOK_iff",
+    "Wild.C32.analyze_star_iff",
+    "Wild.C32.realsymbol_none_analyze",
+    "Wild.C32.realsymbol_some_analyze",
+    "Wild.C32.entry_agree",
+    "Wild.C32.build_ok",
+    "Wild.C32.scan_eq",
+    "Wild.C32.gnuFindIdx_eq",
+    "Wild.C32.wild_eq",
+    "Wild.C32.gnu_eq",
+    "Wild.C32.glob_phase",
+    "Wild.C32.all_phase",
 ]
 LEVEL = "proof"
 NEEDS_WILD = True
